@@ -1,18 +1,24 @@
-(** C14 - a proved bound for the binary32 evaluation of the Gini impurity.
+(** C14 - proved bounds for the binary32 evaluation of the Gini impurity, of the split score and of
+    the reported impurity decrease (the allowance 2^-18 of the checker, for exact class counts).
 
     Part 1  links the SpecFloat operations at precision 24 / emax 128 (the arithmetic [B32_ops] the
             model of TreeNode::fit is executed with against the Rust code) to Flocq's IEEE-754
             formalisation: on valid finite operands, without overflow, every operation returns the
             correctly rounded (to nearest, ties to even) exact result.
-    Part 2  analyses the computation  1 - sum_c ((x_c / n) * (x_c / n))  for any rounding operator
-            with |rd x - x| <= u |x| + eta.
+    Part 2  analyses  1 - sum_c ((x_c / n) * (x_c / n)),  w * gR + (1 - w) * gL  and  gP - s  for any
+            rounding operator with |rd x - x| <= u |x| + eta.
     Part 3  instantiates it for the model's [gini] run in binary32 on a table of exact counts
             (unit sample weights - or any weights whose class sums are integers - with a total
             below 2^24): the result is within (k + 6) * 2^-24 of the real Gini impurity, k the
-            number of classes present ([gini32_error]). *)
+            number of classes present ([gini32_error]).
+    Part 4  the score of a candidate split ([split_score] of C14/ProofsSplit.v) within
+            (k + 11) * 2^-24 and the decrease gini(parent) - score, as computed for F = f32, within
+            (kP + k + 19) * 2^-24 of their real values; hence within 2^-18 for up to 22 classes.
+    For F = f64 the two scores are widened exactly and subtracted in binary64 (a rounding of 2^-53
+    instead of 2^-24): that last step is not covered here (SF2Prim on non-canonical operands). *)
 From Coq Require Import ZArith Reals Lra Lia SpecFloat Bool List Psatz.
 From Flocq Require Import Core Relative BinarySingleNaN.
-From LinfaVerif Require Import Common.Num Common.QF Common.B32 C14.Model C14.Proofs.
+From LinfaVerif Require Import Common.Num Common.QF Common.B32 C14.Model C14.Proofs C14.ProofsSplit.
 Import ListNotations.
 
 (* ---------------------------------------------------------------------------------------- *)
@@ -304,6 +310,129 @@ Proof.
   lra.
 Qed.
 
+(** the weighted score  w * gR + (1 - w) * gL  with w = rd (W) *)
+Definition score_rd (W gR gL : R) : R :=
+  let w := rd W in rd (rd (w * gR) + rd (rd (1 - w) * gL)).
+
+Lemma rd_abs x B : Rabs x <= B -> Rabs (rd x - x) <= u * B + eta.
+Proof.
+  intros Hx. eapply Rle_trans; [apply rd_err|]. apply Rplus_le_compat_r. apply Rmult_le_compat_l; lra.
+Qed.
+
+Lemma abs_le_add x y e B : Rabs (x - y) <= e -> Rabs y <= B -> Rabs x <= B + e.
+Proof.
+  intros H1 H2. replace x with (y + (x - y)) by ring. eapply Rle_trans; [apply Rabs_triang|]. lra.
+Qed.
+
+Lemma score_err W gR gL GR GL eR eL :
+  0 <= W <= 1 -> 0 <= GR <= 1 -> 0 <= GL <= 1 ->
+  Rabs (gR - GR) <= eR -> eR <= 1 / 1000 -> Rabs (gL - GL) <= eL -> eL <= 1 / 1000 ->
+  let w := rd W in
+  Rabs w <= 2 /\ Rabs (w * gR) <= 2 /\ Rabs (1 - w) <= 2 /\ Rabs (rd (1 - w) * gL) <= 2 /\
+  Rabs (rd (w * gR) + rd (rd (1 - w) * gL)) <= 2 /\
+  Rabs (score_rd W gR gL - (W * GR + (1 - W) * GL)) <= W * eR + (1 - W) * eL + 5 * u.
+Proof.
+  intros [W0 W1] [R0 R1] [L0 L1] HR HeR HL HeL w.
+  assert (eR0 : 0 <= eR) by (eapply Rle_trans; [apply Rabs_pos|exact HR]).
+  assert (eL0 : 0 <= eL) by (eapply Rle_trans; [apply Rabs_pos|exact HL]).
+  assert (Huu : 0 <= u * u <= u / 1000000) by (clear - Hu0 Hu1; split; nra).
+  assert (HuW : 0 <= u * W <= u) by (clear - Hu0 W0 W1; split; nra).
+  assert (Hu1W : 0 <= u * (1 - W) <= u) by (clear - Hu0 W0 W1; split; nra).
+  assert (Hue : 0 <= u * eta <= eta) by (clear - Hu0 Hu1 He0; split; nra).
+  assert (HWeR : 0 <= W * eR <= W / 1000) by (clear - W0 W1 eR0 HeR; split; nra).
+  assert (H1WeL : 0 <= (1 - W) * eL <= (1 - W) / 1000) by (clear - W0 W1 eL0 HeL; split; nra).
+  assert (HWGR : 0 <= W * GR <= W) by (clear - W0 W1 R0 R1; split; nra).
+  assert (H1WGL : 0 <= (1 - W) * GL <= 1 - W) by (clear - W0 W1 L0 L1; split; nra).
+  assert (HgR : Rabs gR <= 1001 / 1000).
+  { apply (abs_le_add gR GR eR 1) in HR; [lra|]. rewrite Rabs_pos_eq; lra. }
+  assert (HgL : Rabs gL <= 1001 / 1000).
+  { apply (abs_le_add gL GL eL 1) in HL; [lra|]. rewrite Rabs_pos_eq; lra. }
+  (* w *)
+  set (dw := u * W + eta).
+  assert (Hdw : 0 <= dw <= u + eta) by (unfold dw; lra).
+  assert (Hw : Rabs (w - W) <= dw).
+  { unfold w, dw. pose proof (rd_err W) as E. rewrite (Rabs_pos_eq W) in E by lra. exact E. }
+  assert (Hwm : Rabs w <= 1 + dw) by (apply (abs_le_add w W dw 1 Hw); rewrite Rabs_pos_eq; lra).
+  (* a = rd (w * gR) *)
+  assert (HwgR : Rabs (w * gR - W * GR) <= (1001 / 1000) * dw + W * eR).
+  { replace (w * gR - W * GR) with ((w - W) * gR + W * (gR - GR)) by ring.
+    eapply Rle_trans; [apply Rabs_triang|]. rewrite !Rabs_mult, (Rabs_pos_eq W) by lra.
+    apply Rplus_le_compat.
+    - rewrite Rmult_comm. apply Rmult_le_compat; try apply Rabs_pos; assumption.
+    - apply Rmult_le_compat_l; [lra|exact HR]. }
+  assert (Hmag_a : Rabs (w * gR) <= (1001 / 1000) * W + 2 * u).
+  { apply (abs_le_add _ _ _ W) in HwgR; [|rewrite Rabs_pos_eq; lra]. unfold dw in *. lra. }
+  set (a := rd (w * gR)).
+  assert (Ha : Rabs (a - w * gR) <= u * ((1001 / 1000) * W + 2 * u) + eta) by (apply rd_abs; exact Hmag_a).
+  assert (Ea : u * ((1001 / 1000) * W + 2 * u) = (1001 / 1000) * (u * W) + 2 * (u * u)) by ring.
+  rewrite Ea in Ha.
+  assert (HaT : Rabs (a - W * GR) <= W * eR + (2003 / 1000) * (u * W) + 2 * (u * u) + 3 * eta).
+  { replace (a - W * GR) with ((a - w * gR) + (w * gR - W * GR)) by ring.
+    eapply Rle_trans; [apply Rabs_triang|]. unfold dw in *. lra. }
+  (* c = rd (1 - w) *)
+  assert (Hmag_1w : Rabs (1 - w) <= (1 - W) + dw).
+  { replace (1 - w) with ((1 - W) + - (w - W)) by ring. eapply Rle_trans; [apply Rabs_triang|].
+    rewrite Rabs_Ropp, Rabs_pos_eq by lra. lra. }
+  set (c := rd (1 - w)).
+  assert (Hc : Rabs (c - (1 - w)) <= u * ((1 - W) + dw) + eta) by (apply rd_abs; exact Hmag_1w).
+  assert (Ec : u * ((1 - W) + dw) = u * (1 - W) + u * (u * W) + u * eta) by (unfold dw; ring).
+  assert (HuuW : 0 <= u * (u * W) <= u * u) by (clear - Hu0 HuW; split; nra).
+  rewrite Ec in Hc.
+  assert (HcT : Rabs (c - (1 - W)) <= u + 2 * (u * u) + 3 * eta).
+  { replace (c - (1 - W)) with ((c - (1 - w)) + - (w - W)) by ring.
+    eapply Rle_trans; [apply Rabs_triang|]. rewrite Rabs_Ropp. unfold dw in *.
+    assert (u * (1 - W) + u * W = u) by ring. lra. }
+  set (dc := u + 2 * (u * u) + 3 * eta) in *.
+  assert (Hdc : 0 <= dc <= 2 * u) by (unfold dc; lra).
+  (* b = rd (c * gL) *)
+  assert (HcgL : Rabs (c * gL - (1 - W) * GL) <= (1001 / 1000) * dc + (1 - W) * eL).
+  { replace (c * gL - (1 - W) * GL) with ((c - (1 - W)) * gL + (1 - W) * (gL - GL)) by ring.
+    eapply Rle_trans; [apply Rabs_triang|]. rewrite !Rabs_mult, (Rabs_pos_eq (1 - W)) by lra.
+    apply Rplus_le_compat.
+    - rewrite Rmult_comm. apply Rmult_le_compat; try apply Rabs_pos; assumption.
+    - apply Rmult_le_compat_l; [lra|exact HL]. }
+  assert (Hmag_b : Rabs (c * gL) <= (1001 / 1000) * (1 - W) + 3 * u).
+  { apply (abs_le_add _ _ _ (1 - W)) in HcgL; [|rewrite Rabs_pos_eq; lra]. lra. }
+  set (b := rd (c * gL)).
+  assert (Hb : Rabs (b - c * gL) <= u * ((1001 / 1000) * (1 - W) + 3 * u) + eta) by (apply rd_abs; exact Hmag_b).
+  assert (Eb : u * ((1001 / 1000) * (1 - W) + 3 * u) = (1001 / 1000) * (u * (1 - W)) + 3 * (u * u)) by ring.
+  rewrite Eb in Hb.
+  assert (HbT : Rabs (b - (1 - W) * GL) <= (1 - W) * eL + (1001 / 1000) * dc + (1001 / 1000) * (u * (1 - W)) + 3 * (u * u) + eta).
+  { replace (b - (1 - W) * GL) with ((b - c * gL) + (c * gL - (1 - W) * GL)) by ring.
+    eapply Rle_trans; [apply Rabs_triang|]. lra. }
+  (* s = rd (a + b) *)
+  assert (Hmag_ab : Rabs (a + b) <= 1002 / 1000 + 6 * u).
+  { replace (a + b) with ((W * GR + (1 - W) * GL) + ((a - W * GR) + (b - (1 - W) * GL))) by ring.
+    eapply Rle_trans; [apply Rabs_triang|]. rewrite Rabs_pos_eq by lra.
+    eapply Rle_trans; [apply Rplus_le_compat_l, Rabs_triang|]. unfold dc in *. lra. }
+  assert (Hs : Rabs (rd (a + b) - (a + b)) <= u * (1002 / 1000 + 6 * u) + eta) by (apply rd_abs; exact Hmag_ab).
+  assert (Es : u * (1002 / 1000 + 6 * u) = (1002 / 1000) * u + 6 * (u * u)) by ring.
+  rewrite Es in Hs.
+  split; [unfold dw in *; lra|]. split; [lra|]. split; [unfold dw in *; lra|]. split; [fold c; lra|].
+  split; [fold a; fold c; fold b; lra|].
+  unfold score_rd. fold w. fold a. fold c. fold b.
+  replace (rd (a + b) - (W * GR + (1 - W) * GL)) with ((rd (a + b) - (a + b)) + ((a - W * GR) + (b - (1 - W) * GL))) by ring.
+  eapply Rle_trans; [apply Rabs_triang|]. eapply Rle_trans; [apply Rplus_le_compat_l, Rabs_triang|].
+  assert (u * W + u * (1 - W) = u) by ring. unfold dc in *. lra.
+Qed.
+
+(** the reported decrease  rd' (gP - s)  for a (possibly different) rounding operator rd' *)
+Lemma decrease_err (rd' : R -> R) (u' eta' : R) gP GP s SC eP eS :
+  (forall x, Rabs (rd' x - x) <= u' * Rabs x + eta') -> 0 <= u' ->
+  0 <= GP <= 1 -> 0 <= SC <= 1 -> Rabs (gP - GP) <= eP -> eP <= 1 / 1000 -> Rabs (s - SC) <= eS -> eS <= 1 / 1000 ->
+  Rabs (gP - s) <= 2 /\
+  Rabs (rd' (gP - s) - (GP - SC)) <= eP + eS + u' * (1002 / 1000) + eta'.
+Proof.
+  intros Hrd Hu' [P0 P1] [S0 S1] HP HeP HS HeS.
+  apply Rabs_le_inv in HP. apply Rabs_le_inv in HS.
+  assert (Hm : Rabs (gP - s) <= 1002 / 1000) by (apply Rabs_le; lra).
+  split; [lra|].
+  pose proof (Hrd (gP - s)) as E.
+  assert (u' * Rabs (gP - s) <= u' * (1002 / 1000)) by (apply Rmult_le_compat_l; lra).
+  replace (rd' (gP - s) - (GP - SC)) with ((rd' (gP - s) - (gP - s)) + (gP - GP) - (s - SC)) by ring.
+  apply Rabs_le. apply Rabs_le_inv in E. lra.
+Qed.
+
 End Analysis.
 
 (* ---------------------------------------------------------------------------------------- *)
@@ -551,4 +680,150 @@ Proof.
   split; [exact H|]. split; [cbn; lia|].
   destruct (gini32_error ex_count_tab [3%Z; 1%Z] H ltac:(cbn; lia) ltac:(cbn; lia)) as [_ B].
   cbn [length INR] in B. replace (1 + 1 + 6) with 8 in B by ring. exact B.
+Qed.
+
+(* ---------------------------------------------------------------------------------------- *)
+(** * Part 4: the split score and the reported decrease in binary32 *)
+
+Lemma counts_nonneg vs cs : Forall2 is_count vs cs -> Forall (fun c => (0 <= c)%Z) cs.
+Proof. induction 1 as [|v c vs cs (_ & _ & Hc) _ IH]; constructor; assumption. Qed.
+
+Lemma rgini_range vs cs : Forall2 is_count vs cs -> (0 < Zsum cs)%Z -> 0 <= rgini (map IZR cs) <= 1.
+Proof.
+  intros HF HN. rewrite rgini_counts. set (N := Zsum cs) in *. set (qs := map (fun c => IZR c / IZR N) cs).
+  assert (HNr : 0 < IZR N) by (apply IZR_lt; exact HN).
+  assert (Hq01 : Forall (fun q => 0 <= q <= 1) qs).
+  { unfold qs. apply Forall_forall. intros q Hq. apply in_map_iff in Hq as (c & <- & Hc).
+    pose proof (counts_le_sum _ _ HF) as Hle. rewrite Forall_forall in Hle. specialize (Hle c Hc). fold N in Hle.
+    pose proof (counts_nonneg _ _ HF) as H0. rewrite Forall_forall in H0. specialize (H0 c Hc).
+    split; [unfold Rdiv; apply Rmult_le_pos; [apply IZR_le; exact H0|left; apply Rinv_0_lt_compat; exact HNr]|].
+    apply Rmult_le_reg_r with (IZR N); [exact HNr|]. unfold Rdiv. rewrite Rmult_assoc, Rinv_l by lra.
+    rewrite Rmult_1_r, Rmult_1_l. apply IZR_le. exact Hle. }
+  assert (HQ : sumsq qs <= 1).
+  { eapply Rle_trans; [apply sumsq_le_sum, Hq01|]. unfold qs. rewrite sum_div. fold N. unfold Rdiv. rewrite Rinv_r by lra. lra. }
+  pose proof (sumsq_nonneg qs). lra.
+Qed.
+
+Lemma k6_small (k : nat) : (k <= 900)%nat -> 0 <= (INR k + 6) * u32 <= 1 / 1000.
+Proof.
+  intros Hk. destruct u32_ok as [U0 U1].
+  assert (0 <= INR k <= 900).
+  { split; [apply pos_INR|]. replace 900 with (INR 900) by (simpl; lra). apply le_INR, Hk. }
+  split; nra.
+Qed.
+
+(** the score  wr/total * gini(right) + (1 - wr/total) * gini(left)  of a candidate split whose two
+    class tables hold exact counts, evaluated in binary32, against its real value *)
+Theorem score32_error (r l : freq_tab (W := spec_float)) (csR csL : list Z) (wr total : spec_float) :
+  Forall2 is_count (tab_vals r) csR -> Forall2 is_count (tab_vals l) csL ->
+  (0 < Zsum csR)%Z -> (0 < Zsum csL)%Z -> (Zsum csR + Zsum csL < 2 ^ 24)%Z ->
+  (length csR <= 900)%nat -> (length csL <= 900)%nat ->
+  okf wr -> val wr = IZR (Zsum csR) -> okf total -> val total = IZR (Zsum csR + Zsum csL) ->
+  let W := IZR (Zsum csR) / IZR (Zsum csR + Zsum csL) in
+  let SC := W * rgini (map IZR csR) + (1 - W) * rgini (map IZR csL) in
+  let s := split_score B32_ops (gini B32_ops) total r l wr in
+  okf s /\ 0 <= SC <= 1 /\
+  Rabs (val s - SC) <= (INR (Nat.max (length csR) (length csL)) + 11) * u32.
+Proof.
+  intros HFR HFL HR0 HL0 HT HkR HkL Hwr Hwrv Htot Htotv W SC s.
+  destruct u32_ok as [U0 U1]. destruct eta32_ok as [E0 E1]. destruct okf_one as [O0 Ov].
+  destruct (gini32_error r csR HFR ltac:(lia) HkR) as [HgR HeR].
+  destruct (gini32_error l csL HFL ltac:(lia) HkL) as [HgL HeL].
+  pose proof (rgini_range _ _ HFR HR0) as RR. pose proof (rgini_range _ _ HFL HL0) as RL.
+  set (GR := rgini (map IZR csR)) in *. set (GL := rgini (map IZR csL)) in *.
+  set (gR := gini B32_ops r) in *. set (gL := gini B32_ops l) in *.
+  set (k := Nat.max (length csR) (length csL)).
+  assert (HkRk : INR (length csR) <= INR k) by (apply le_INR; unfold k; lia).
+  assert (HkLk : INR (length csL) <= INR k) by (apply le_INR; unfold k; lia).
+  assert (HTr : 0 < IZR (Zsum csR + Zsum csL)) by (apply IZR_lt; lia).
+  assert (HW : 0 <= W <= 1).
+  { unfold W. split.
+    - unfold Rdiv. apply Rmult_le_pos; [apply IZR_le; lia|left; apply Rinv_0_lt_compat; exact HTr].
+    - apply Rmult_le_reg_r with (IZR (Zsum csR + Zsum csL)); [exact HTr|]. unfold Rdiv.
+      rewrite Rmult_assoc, Rinv_l by lra. rewrite Rmult_1_r, Rmult_1_l. apply IZR_le. lia. }
+  pose proof (k6_small _ HkR) as SR. pose proof (k6_small _ HkL) as SL.
+  destruct (score_err u32 eta32 rnd U0 U1 E0 E1 rnd_err W (val gR) (val gL) GR GL _ _ HW RR RL HeR (proj2 SR) HeL (proj2 SL))
+    as (M1 & M2 & M3 & M4 & M5 & HE).
+  (* the operations *)
+  destruct (div32 wr total Hwr Htot) as [Hw Hwv].
+  { rewrite Htotv. lra. }
+  { apply rnd_small. rewrite Hwrv, Htotv. fold W. rewrite Rabs_pos_eq; lra. }
+  rewrite Hwrv, Htotv in Hwv. fold W in Hwv.
+  set (w := SFdiv 24 128 wr total) in *.
+  destruct (mul32 w gR Hw HgR) as [Ha Hav].
+  { apply rnd_small. rewrite Hwv. lra. }
+  destruct (sub32 _ w O0 Hw) as [Hc Hcv].
+  { apply rnd_small. rewrite Ov, Hwv. lra. }
+  set (c := SFsub 24 128 (S754_finite false 8388608 (-23)) w) in *.
+  destruct (mul32 c gL Hc HgL) as [Hb Hbv].
+  { apply rnd_small. rewrite Hcv, Ov, Hwv. lra. }
+  destruct (add32 _ _ Ha Hb) as [Hs Hsv].
+  { apply rnd_small. rewrite Hav, Hbv, Hcv, Ov, Hwv. lra. }
+  assert (Es : s = SFadd 24 128 (SFmul 24 128 w gR) (SFmul 24 128 c gL)) by reflexivity.
+  assert (HSC : 0 <= SC <= 1).
+  { unfold SC. clear - HW RR RL. destruct HW, RR, RL. split; nra. }
+  rewrite Es. split; [exact Hs|]. split; [exact HSC|].
+  rewrite Hsv, Hav, Hbv, Hcv, Ov, Hwv. fold (score_rd rnd W (val gR) (val gL)).
+  eapply Rle_trans; [exact HE|].
+  assert (W * ((INR (length csR) + 6) * u32) <= W * ((INR k + 6) * u32)).
+  { apply Rmult_le_compat_l; [lra|]. apply Rmult_le_compat_r; lra. }
+  assert ((1 - W) * ((INR (length csL) + 6) * u32) <= (1 - W) * ((INR k + 6) * u32)).
+  { apply Rmult_le_compat_l; [lra|]. apply Rmult_le_compat_r; lra. }
+  replace ((INR k + 11) * u32) with (W * ((INR k + 6) * u32) + (1 - W) * ((INR k + 6) * u32) + 5 * u32) by ring.
+  lra.
+Qed.
+
+(** the impurity decrease  gini(parent) - score  as TreeNode::fit computes it for F = f32 (the cast of
+    the scores is the identity, the subtraction a binary32 operation), all three class tables
+    holding exact counts: within (kP + k + 19) * 2^-24 of the real decrease, kP / k the numbers of
+    classes present in the parent / in the larger child *)
+Theorem decrease32_error (p r l : freq_tab (W := spec_float)) (csP csR csL : list Z) (wr total : spec_float) :
+  Forall2 is_count (tab_vals p) csP -> (0 < Zsum csP < 2 ^ 24)%Z -> (length csP <= 900)%nat ->
+  Forall2 is_count (tab_vals r) csR -> Forall2 is_count (tab_vals l) csL ->
+  (0 < Zsum csR)%Z -> (0 < Zsum csL)%Z -> (Zsum csR + Zsum csL < 2 ^ 24)%Z ->
+  (length csR <= 900)%nat -> (length csL <= 900)%nat ->
+  okf wr -> val wr = IZR (Zsum csR) -> okf total -> val total = IZR (Zsum csR + Zsum csL) ->
+  let W := IZR (Zsum csR) / IZR (Zsum csR + Zsum csL) in
+  let D := rgini (map IZR csP) - (W * rgini (map IZR csR) + (1 - W) * rgini (map IZR csL)) in
+  let dec := sub B32_ops (gini B32_ops p) (split_score B32_ops (gini B32_ops) total r l wr) in
+  okf dec /\
+  Rabs (val dec - D) <= (INR (length csP) + INR (Nat.max (length csR) (length csL)) + 19) * u32.
+Proof.
+  intros HFP HP HkP HFR HFL HR0 HL0 HT HkR HkL Hwr Hwrv Htot Htotv W D dec.
+  destruct u32_ok as [U0 U1]. destruct eta32_ok as [E0 E1].
+  destruct (gini32_error p csP HFP HP HkP) as [HgP HeP].
+  destruct (score32_error r l csR csL wr total HFR HFL HR0 HL0 HT HkR HkL Hwr Hwrv Htot Htotv) as (Hs & HSC & HeS).
+  pose proof (rgini_range _ _ HFP (proj1 HP)) as RP.
+  set (k := Nat.max (length csR) (length csL)) in *.
+  assert (Hk : (k <= 900)%nat) by (unfold k; lia).
+  pose proof (k6_small _ HkP) as SP.
+  assert (SS : (INR k + 11) * u32 <= 1 / 1000).
+  { assert (0 <= INR k <= 900).
+    { split; [apply pos_INR|]. replace 900 with (INR 900) by (simpl; lra). apply le_INR, Hk. }
+    nra. }
+  destruct (decrease_err rnd u32 eta32 _ _ _ _ _ _ rnd_err (Rlt_le _ _ U0) RP HSC HeP (proj2 SP) HeS SS) as [Hm HE].
+  destruct (sub32 _ _ HgP Hs) as [Hd Hdv].
+  { apply rnd_small. lra. }
+  split; [exact Hd|]. unfold dec. change (sub B32_ops) with (SFsub 24 128). rewrite Hdv.
+  eapply Rle_trans; [exact HE|]. fold k. nra.
+Qed.
+
+(** in particular the allowance 2^-18 of the checker covers the binary32 evaluation for up to 22
+    classes *)
+Corollary decrease32_within_tolerance (p r l : freq_tab (W := spec_float)) (csP csR csL : list Z) (wr total : spec_float) :
+  Forall2 is_count (tab_vals p) csP -> (0 < Zsum csP < 2 ^ 24)%Z -> (length csP <= 22)%nat ->
+  Forall2 is_count (tab_vals r) csR -> Forall2 is_count (tab_vals l) csL ->
+  (0 < Zsum csR)%Z -> (0 < Zsum csL)%Z -> (Zsum csR + Zsum csL < 2 ^ 24)%Z ->
+  (length csR <= 22)%nat -> (length csL <= 22)%nat ->
+  okf wr -> val wr = IZR (Zsum csR) -> okf total -> val total = IZR (Zsum csR + Zsum csL) ->
+  let W := IZR (Zsum csR) / IZR (Zsum csR + Zsum csL) in
+  let D := rgini (map IZR csP) - (W * rgini (map IZR csR) + (1 - W) * rgini (map IZR csL)) in
+  Rabs (val (sub B32_ops (gini B32_ops p) (split_score B32_ops (gini B32_ops) total r l wr)) - D) <= / 262144.
+Proof.
+  intros HFP HP HkP HFR HFL HR0 HL0 HT HkR HkL Hwr Hwrv Htot Htotv W D.
+  destruct (decrease32_error p r l csP csR csL wr total HFP HP ltac:(lia) HFR HFL HR0 HL0 HT ltac:(lia) ltac:(lia) Hwr Hwrv Htot Htotv) as [_ B].
+  eapply Rle_trans; [exact B|]. rewrite u32_val.
+  assert (INR (length csP) <= 22) by (replace 22 with (INR 22) by (simpl; lra); apply le_INR, HkP).
+  assert (INR (Nat.max (length csR) (length csL)) <= 22) by (replace 22 with (INR 22) by (simpl; lra); apply le_INR; lia).
+  lra.
 Qed.
